@@ -36,6 +36,7 @@ pub enum Rec { Ins(AsmMnemonic, u8), Label, None }          // operand kind: 0 n
 pub struct GeneratorState<'a> {
     pub compiler_state: &'a CompilerState, pub flags: FlagsState, pub carry_flag_ok: bool, pub acc_in_use: bool, pub tmp_in_use: bool, pub local_label_counter_if: u32,
     pub rec: [Rec; 10], pub n: usize, pub arith_path: bool,
+    pub passes: [u8; 4], pub np: usize,      // the byte passes of the general path: 1 = low byte stored, 2 = high byte stored
 }
 impl<'a> GeneratorState<'a> {
     fn push(&mut self, r: Rec) { if self.n < 10 { self.rec[self.n] = r; self.n += 1; } }
@@ -51,6 +52,7 @@ impl<'a> GeneratorState<'a> {
     pub fn generate_arithm(&mut self, _l: &ExprType, _op: &Operation, _r: &ExprType, _pos: usize, _hb: bool) -> Result<ExprType, Error> { self.arith_path = true; self.flags = FlagsState::A; Ok(ExprType::A(false)) }
     pub fn generate_assign(&mut self, l: &ExprType, _r: &ExprType, _pos: usize, hb: bool) -> Result<ExprType, Error> {
         self.arith_path = true;
+        if self.np < 4 { self.passes[self.np] = if hb { 2 } else { 1 }; self.np += 1; }
         self.flags = if hb { FlagsState::Unknown } else { match l { ExprType::Absolute(a, b, c) => FlagsState::Absolute(a.clone(), *b, *c), ExprType::AbsoluteX(s) => FlagsState::AbsoluteX(s.clone()), _ => FlagsState::Unknown } };
         Ok(l.clone())
     }
@@ -92,7 +94,7 @@ fn run(g: &GeneratorState, mut m: M) -> M {
 }
 fn any_machine() -> M { M { lo: kani::any(), hi: kani::any(), a: kani::any(), x: kani::any(), y: kani::any(), n: kani::any(), z: kani::any(), stk: 0, sp: 0, bad: false } }
 fn new_state<'a>(cs: &'a CompilerState, acc_live: bool) -> GeneratorState<'a> {
-    GeneratorState { compiler_state: cs, flags: FlagsState::Unknown, carry_flag_ok: false, acc_in_use: acc_live, tmp_in_use: false, local_label_counter_if: 0, rec: [Rec::None; 10], n: 0, arith_path: false }
+    GeneratorState { compiler_state: cs, flags: FlagsState::Unknown, carry_flag_ok: false, acc_in_use: acc_live, tmp_in_use: false, local_label_counter_if: 0, rec: [Rec::None; 10], n: 0, arith_path: false, passes: [0; 4], np: 0 }
 }
 #[cfg(kani)]
 mod harness {
@@ -134,6 +136,19 @@ H8 = """    #[kani::proof] #[kani::unwind(12)]
         assert!(!m.bad && m.sp == 0);
         assert!(%(check)s);
         if g.flags != FlagsState::Unknown { assert!(m.z == (%(val)s == 0) && m.n == (%(val)s & 0x80 != 0)); }
+    }
+"""
+H18 = """    #[kani::proof] #[kani::unwind(12)]
+    fn %(name)s() {      // an element designated through Y (no INC/DEC abs,Y on the 6502: load / add / store): every byte of the element is updated, low byte first
+        let k: u8 = kani::any();
+        let vt = match k %% 3 { 0 => VariableType::CharPtr, 1 => VariableType::ShortPtr, _ => VariableType::CharPtrPtr };
+        let cs = CompilerState { v: Variable { var_type: vt, memory: VariableMemory::Zeropage, var_const: false, signed: false, size: 1 } };
+        let mut g = new_state(&cs, kani::any());
+        let operand = ExprType::AbsoluteY("v".to_string());
+        let r = g.generate_plusplus(&operand, 0, kani::any());
+        assert!(r.is_ok() && g.arith_path);
+        if vt == VariableType::CharPtr { assert!(g.np == 1 && g.passes[0] == 1); }
+        else { assert!(g.np == 2 && g.passes[0] == 1 && g.passes[1] == 2); }
     }
 """
 H17 = """    #[kani::proof] #[kani::unwind(12)]
@@ -198,6 +213,7 @@ def build(repo):
             ["C01", "C15"], "plusplus-x-%s" % word, "%s of X: value, other registers, flags belief" % word)
         add("pp_y_%s" % word, H8 % {"name": "pp_y_%s" % word, "what": "register Y, %s" % word, "operand": "ExprType::Y", "pp": pp, "check": "m.y == m0.y.%s(1) && m.lo == m0.lo && m.a == m0.a && m.x == m0.x" % sign, "val": "m.y"},
             ["C01", "C15"], "plusplus-y-%s" % word, "%s of Y: value, other registers, flags belief" % word)
+    add("pp_element_y_width", H18 % {"name": "pp_element_y_width"}, ["C01", "C15"], "plusplus-y-indexed-element-width", "++/-- of v[Y]: one byte pass for an array of chars, low then high for an array of shorts / of pointers (as with an X index or a constant index)")
     add("pp_splitport_abs", H17 % {"name": "pp_splitport_abs", "operand": abs8.replace("true", "kani::any()")}, ["C17"], "noinc-abs", "cfg atari2600: ++/-- on a superchip / on-chip-RAM variable never emits INC/DEC on it", cfgs=("atari2600",))
     add("pp_splitport_abs16_flags", H17F % {"name": "pp_splitport_abs16_flags", "operand": abs16}, ["C17", "C01"], "splitport-16bit-flags-unknown", "cfg atari2600: after ++/-- of a 16-bit cell in split-port RAM (load/add/store path) the generator claims nothing about N/Z", cfgs=("atari2600",))
     add("pp_splitport_absx", H17 % {"name": "pp_splitport_absx", "operand": absx}, ["C17"], "noinc-absx", "cfg atari2600: ++/-- on v[X] in split-port RAM never emits INC/DEC on it", cfgs=("atari2600",))
@@ -215,6 +231,11 @@ def build(repo):
 
 
 def lift(harness, vals):
+    if harness == "pp_element_y_width":
+        # the carry into the high byte of an element of an array of shorts (low bytes first, then high bytes) designated through Y
+        return {"source": "short t[4]; unsigned char b;\nvoid main() { Y = b; t[Y]++; }\n", "args": ["-O0"], "expect": {"panic": False},
+                "simulate": {"init": {"b": 2}, "init_addr": {"t+2": 255, "t+6": 16}, "expect": {"t+2": 0, "t+6": 17}, "stack_empty": True},
+                "note": "t[2] = 0x10ff before `t[Y]++` with Y = 2: C gives 0x1100"}
     m = re.match(r"pp_(short|char)_(inc|dec)$", harness)
     if not m:
         return None
